@@ -1,84 +1,52 @@
 (* Property C12 - only statements, each closed by [exact].
    Model: UV.C12.Model (per-task record stream reader of utils/fstack.c: __read_task_ustack,
    read_task_args/read_task_arg, read_task_event, read_task_ustack; FILE = bytes not yet consumed).
-   [read_file false] is the code as it is, [read_file true] the proposed repair (proposed-fixes/C12-1.diff).
+   [read_file true] is the reader of the current tree (a payload read that hits end-of-file ends the task's
+   data, fix ec00259); [read_file false] is the reader before that repair and appears only in the
+   `_legacy_` statements.
    rs ranges over ALL lists of records that are well-formed w.r.t. the argument specs [env] and the
    event table [evs] the reader uses; n over ALL truncation lengths. *)
 From Coq Require Import NArith List Bool.
 Import ListNotations.
 Require Import UV.C12.Model UV.C12.Proofs UV.C12.Lines.
 
-(* The code as it is, under the exact guard: outside the defect class the reader reports exactly
-   the records that are completely present in the first n bytes and then ends (end of data, or the
-   diagnostic exit "record missing argument info"). *)
+(* MAIN: for EVERY truncation length the reader reports exactly the records that are completely present in
+   the first n bytes (header and payload), each with exactly its payload, and then ends with end of data. *)
 Theorem C12_stream_prefix : forall env evs wv rs n,
-  wf_recs env evs rs = true -> defect_cut false rs n = false ->
-  let res := read_file false env evs wv (firstn n (enc rs)) in
-  fst res = map full_item (whole_prefix rs n) /\ (snd res = EEof \/ snd res = EMissingArg).
-Proof. exact stream_prefix_legacy. Qed.
-Print Assumptions C12_stream_prefix.
-
-(* The guard is exact: on every cut it excludes, what the code reports differs from the completely
-   present records (it shows one more record, with an unfilled or stale payload). *)
-Theorem C12_guard_exact : forall env evs wv rs n,
-  wf_recs env evs rs = true -> defect_cut false rs n = true ->
-  ok_cut rs n (read_file false env evs wv (firstn n (enc rs))) = false.
-Proof. exact guard_exact. Qed.
-Print Assumptions C12_guard_exact.
-
-(* DESIGN section 9 #6, concretely: g("hi", "second", 7) cut inside the second string is reported
-   as a record whose payload is shorter than its argument spec needs (the consumer reads past the
-   valid bytes), although only one record is completely present. *)
-Theorem C12_partial_args_refuted :
-  wf_recs (lookup_range w_envl) evsize_repo w_rs = true /\ w_cut <= length (enc w_rs) /\
-  let res := read_file false (lookup_range w_envl) evsize_repo watchvar_repo (firstn w_cut (enc w_rs)) in
-  ok_cut w_rs w_cut res = false /\
-  forallb (item_in_bounds (lookup_range w_envl) evsize_repo) (fst res) = false /\
-  length (fst res) = 2 /\ length (whole_prefix w_rs w_cut) = 1.
-Proof. exact partial_args_refuted. Qed.
-Print Assumptions C12_partial_args_refuted.
-
-(* The repaired reader: for EVERY truncation length the result is exactly the completely present
-   records followed by end of data ... *)
-Theorem C12_stream_prefix_fixed : forall env evs wv rs n,
   wf_recs env evs rs = true ->
   read_file true env evs wv (firstn n (enc rs)) = (map full_item (whole_prefix rs n), EEof).
 Proof. exact stream_prefix_fixed. Qed.
-Print Assumptions C12_stream_prefix_fixed.
+Print Assumptions C12_stream_prefix.
 
-(* ... i.e. exactly the result on the copy cut at the last whole record. *)
-Theorem C12_stream_prefix_fixed_copy : forall env evs wv rs n,
+(* ... i.e. exactly the result on the copy cut at the last whole record ... *)
+Theorem C12_stream_prefix_copy : forall env evs wv rs n,
   wf_recs env evs rs = true ->
   read_file true env evs wv (firstn n (enc rs)) = read_file true env evs wv (enc (whole_prefix rs n)).
 Proof. exact stream_prefix_fixed_copy. Qed.
-Print Assumptions C12_stream_prefix_fixed_copy.
+Print Assumptions C12_stream_prefix_copy.
 
-(* Complete description of both readers on every prefix (what the correspondence check compares). *)
-Theorem C12_reader_characterised : forall env evs wv fixed rs n,
-  wf_recs env evs rs = true ->
-  read_file fixed env evs wv (firstn n (enc rs)) = expected fixed env a0 rs n.
-Proof. exact read_file_expected. Qed.
-Print Assumptions C12_reader_characterised.
+(* ... and what is completely present is an initial segment of what was written; all of it when nothing is cut. *)
+Theorem C12_whole_prefix_initial : forall rs n, exists k, whole_prefix rs n = firstn k rs.
+Proof. exact whole_prefix_initial. Qed.
+Print Assumptions C12_whole_prefix_initial.
 
-(* Every payload the reader hands to its consumers covers all arguments of the spec (no read past
-   the valid bytes of args.data): as it is under the guard, repaired without. *)
+Theorem C12_whole_prefix_all : forall rs n, length (enc rs) <= n -> whole_prefix rs n = rs.
+Proof. exact whole_prefix_all. Qed.
+Print Assumptions C12_whole_prefix_all.
+
+(* Every payload the reader hands to its consumers (get_argspec_string, pr_args, event printers) covers all
+   arguments of the spec: no read past the valid bytes of args.data, for every n. *)
 Theorem C12_reported_in_bounds : forall env evs wv rs n,
-  wf_recs env evs rs = true -> defect_cut false rs n = false ->
-  forallb (item_in_bounds env evs) (fst (read_file false env evs wv (firstn n (enc rs)))) = true.
-Proof. exact reported_in_bounds_legacy. Qed.
-Print Assumptions C12_reported_in_bounds.
-
-Theorem C12_reported_in_bounds_fixed : forall env evs wv rs n,
   wf_recs env evs rs = true ->
   forallb (item_in_bounds env evs) (fst (read_file true env evs wv (firstn n (enc rs)))) = true.
 Proof. exact reported_in_bounds_fixed. Qed.
-Print Assumptions C12_reported_in_bounds_fixed.
+Print Assumptions C12_reported_in_bounds.
 
-(* The run-time checker accepts the model on every safe cut (and the repaired one on every cut). *)
+(* The run-time checker accepts the model on every cut. *)
 Theorem C12_checker_accepts_model : forall env evs wv rs n,
-  wf_recs env evs rs = true -> defect_cut false rs n = false ->
-  ok_cut rs n (read_file false env evs wv (firstn n (enc rs))) = true.
-Proof. exact stream_prefix_legacy_ok. Qed.
+  wf_recs env evs rs = true ->
+  ok_cut rs n (read_file true env evs wv (firstn n (enc rs))) = true.
+Proof. exact stream_prefix_fixed_ok. Qed.
 Print Assumptions C12_checker_accepts_model.
 
 (* No hang: on ARBITRARY bytes (not only well-formed files) the reader consumes at least one record
@@ -90,13 +58,40 @@ Theorem C12_terminates : forall env evs wv fixed (f : bytes) a k,
 Proof. exact terminates. Qed.
 Print Assumptions C12_terminates.
 
-(* non-vacuity of the guard: safe cuts exist inside a payload and at its end; the witness cut is excluded *)
-Theorem C12_guard_non_vacuous :
+(* Complete description of both readers on every prefix (what the correspondence check compares). *)
+Theorem C12_reader_characterised : forall env evs wv fixed rs n,
+  wf_recs env evs rs = true ->
+  read_file fixed env evs wv (firstn n (enc rs)) = expected fixed env a0 rs n.
+Proof. exact read_file_expected. Qed.
+Print Assumptions C12_reader_characterised.
+
+(* ---- legacy reader (before ec00259): DESIGN section 9 #6 ---- *)
+(* g("hi", "second", 7) cut inside the second string was reported as a record whose payload is shorter than
+   its argument spec needs (the consumer read past the valid bytes), although only one record is present. *)
+Theorem C12_partial_args_legacy_refuted :
+  wf_recs (lookup_range w_envl) evsize_repo w_rs = true /\ w_cut <= length (enc w_rs) /\
+  let res := read_file false (lookup_range w_envl) evsize_repo watchvar_repo (firstn w_cut (enc w_rs)) in
+  ok_cut w_rs w_cut res = false /\
+  forallb (item_in_bounds (lookup_range w_envl) evsize_repo) (fst res) = false /\
+  length (fst res) = 2 /\ length (whole_prefix w_rs w_cut) = 1.
+Proof. exact partial_args_refuted. Qed.
+Print Assumptions C12_partial_args_legacy_refuted.
+
+(* exact extent of the legacy defect: the cuts [defect_cut] are precisely those on which the old reader failed
+   the checker; on all others it already reported the completely present records. *)
+Theorem C12_legacy_defect_exact : forall env evs wv rs n,
+  wf_recs env evs rs = true ->
+  ok_cut rs n (read_file false env evs wv (firstn n (enc rs))) = negb (defect_cut false rs n).
+Proof. exact legacy_defect_exact. Qed.
+Print Assumptions C12_legacy_defect_exact.
+
+Theorem C12_legacy_defect_non_vacuous :
   defect_cut false w_rs 33 = false /\ defect_cut false w_rs 16 = false /\ defect_cut false w_rs 48 = false /\
   defect_cut false w_rs 40 = true /\ length (enc w_rs) = 48.
 Proof. exact guard_non_vacuous. Qed.
-Print Assumptions C12_guard_non_vacuous.
+Print Assumptions C12_legacy_defect_non_vacuous.
 
+(* ---- text files ---- *)
 (* Text files (task.txt, info lines, .map, .sym) are read by getline()/fgets() loops.  For EVERY file made of
    '\n'-terminated lines and EVERY truncation length the loop sees exactly the complete lines inside the prefix, in
    order, followed - if the cut is inside a line - by the unterminated rest, which is a prefix of the next line. *)
@@ -113,7 +108,8 @@ Print Assumptions C12_text_cut_structure.
 
 (* Hence any reader that parses line by line and stops at the first rejected line yields, on the prefix, the entries
    of the complete lines and then - only if all were accepted - whatever its line parser makes of the unterminated
-   rest (partial: what the C line parsers make of such a rest is not modelled; observed: accepted when it still scans). *)
+   rest (partial: what the C line parsers make of such a rest is not modelled; the tie checks that it is either
+   rejected, ignored, or treated exactly like the same text followed by a newline). *)
 Theorem C12_text_files_partial : forall (E : Type) (parse : bytes -> option E) ls n, forallb no_nl ls = true ->
   read_text parse (firstn n (text_of ls)) =
   let '(c, p) := cut_lines ls n in
